@@ -62,15 +62,22 @@ type FuncContract struct {
 	Used     bool
 }
 
+type Macro struct {
+	Name   string
+	Params []string
+	Body   Expr
+}
+
 type ContractSet struct {
-	Funcs map[string]*FuncContract
+	Funcs  map[string]*FuncContract
+	Macros map[string]*Macro
 }
 
 var clauseKeywords = map[string]bool{"label": true, "requires": true, "ensures": true, "let": true, "split": true, "modifies": true,
 	"loop": true, "assert": true, "trusted": true, "pure": true, "dyntypes": true}
 
 func LoadContracts(files []string) (*ContractSet, error) {
-	cs := &ContractSet{Funcs: map[string]*FuncContract{}}
+	cs := &ContractSet{Funcs: map[string]*FuncContract{}, Macros: map[string]*Macro{}}
 	for _, f := range files {
 		data, err := os.ReadFile(f)
 		if err != nil {
@@ -102,6 +109,29 @@ func LoadContracts(files []string) (*ContractSet, error) {
 		for _, l := range lines {
 			pos := fmt.Sprintf("%s:%d", filepath.Base(f), l.ln)
 			kw, rest := splitWord(l.s)
+			if kw == "macro" {
+				// macro name(p1, p2) = expr
+				i := strings.Index(rest, "(")
+				j := strings.Index(rest, ")")
+				k := strings.Index(rest, "=")
+				if i < 0 || j < i || k < j {
+					return nil, fmt.Errorf("%s: bad macro", pos)
+				}
+				m := &Macro{Name: strings.TrimSpace(rest[:i])}
+				for _, p := range strings.Split(rest[i+1:j], ",") {
+					if p = strings.TrimSpace(p); p != "" {
+						m.Params = append(m.Params, p)
+					}
+				}
+				e, err := ParseExpr(rest[k+1:])
+				if err != nil {
+					return nil, fmt.Errorf("%s: %v", pos, err)
+				}
+				m.Body = e
+				cs.Macros[m.Name] = m
+				cur = nil
+				continue
+			}
 			if kw == "func" {
 				fc, err := parseFuncHeader(rest)
 				if err != nil {
